@@ -177,11 +177,17 @@ package trend
 //@ ensures[C04] forall kk :: 0 <= kk && kk < len(result1) ==> hor(result1, kk) <= hor(c, kk + (m.IdlePeriod()))
 
 // Apo has no IdlePeriod method; its formula (fast EMA - slow EMA) implies SlowPeriod-1
+// APO = Fast - Slow, Fast = Ema(values, fastPeriod), Slow = Ema(values, slowPeriod), both at the same bar
+//@ stream apoS(c stream, F int, S int)[k] = emaS(c, F, 2 / real(F + 1), k + S - F) - emaS(c, S, 2 / real(S + 1), k)
 //@ func Apo.Compute
 //@ requires 1 <= apo.FastPeriod && apo.FastPeriod <= apo.SlowPeriod && consumed(c) == 0
 //@ ensures[C02] len(result) == max(0, len(c) - (apo.SlowPeriod - 1))
 //@ ensures[C03] consumed(c) == len(c) && closed(result)
 //@ ensures[C04] forall kk :: 0 <= kk && kk < len(result) ==> hor(result, kk) <= hor(c, kk + (apo.SlowPeriod - 1))
+//@ use ema_cong(res(Duplicate, 0)[0], c, apo.FastPeriod, 2 / real(apo.FastPeriod + 1), _)
+//@ use ema_cong(res(Duplicate, 0)[1], c, apo.SlowPeriod, 2 / real(apo.SlowPeriod + 1), _)
+//@ step[C01] "as-implemented" forall k :: 0 <= k && k < len(result) ==> result[k] == emaS(c, apo.FastPeriod, 2 / real(apo.FastPeriod + 1), k) - emaS(c, apo.SlowPeriod, 2 / real(apo.SlowPeriod + 1), k)
+//@ ensures[C01] "documented" forall k :: 0 <= k && k < len(result) ==> result[k] == apoS(c, apo.FastPeriod, apo.SlowPeriod)[k]
 
 //@ func MassIndex.Compute
 //@ requires m.Ema1.Period >= 1 && m.Ema2.Period >= 1 && m.MovingSum.Period >= 1 && consumed(highs) == 0 && consumed(lows) == 0 && len(highs) == len(lows)
